@@ -158,3 +158,14 @@ Example C09_codec_example : forall ops,
     StronglySorted lp_lt us.
 Proof. exact lp_codec_map. Qed.
 Print Assumptions C09_codec_example.
+
+(* the regenerated compound tree END TO END over ANY codec (Proofs/TranslateRunAllFacts.v): for k = KCompound schema or
+   KCodec enc dec (the caller's own Transform / Restore), the regenerated Insert / Delete / Search and thin methods give
+   on every history_ok history over all twelve operations the outputs of Model/Api.run = the reference map *)
+From GoArt Require Import Spec.Ideal Model.GoHeap Proofs.TranslateMutFacts Proofs.TranslateApiFacts Proofs.TranslateRunFacts Proofs.TranslateRunAllFacts.
+Theorem C09_regenerated_run_refines : forall k, is_cmp k = true -> forall evs,
+  Forall cmp_op (map fst evs) -> history_ok k (map fst evs) = true -> short_keys2 k (map fst evs) ->
+  g_compound_run k evs g_init = snd (Api.run k Api.init (map fst evs)) /\
+  g_compound_run k evs g_init = snd (ideal_run k [] (map fst evs)).
+Proof. exact gen_compound_run_refines. Qed.
+Print Assumptions C09_regenerated_run_refines.
